@@ -872,6 +872,12 @@ impl Store {
                 continue;
             }
 
+            // the atc index pads or cuts the tag value to a fixed width, so we have
+            // to compare the actual identifier too
+            if event.tags()?.get_value(b"d") != Some(addr.d.as_slice()) {
+                continue;
+            }
+
             return Ok(Some(event));
         }
 
@@ -972,10 +978,13 @@ impl Store {
         for result in iter {
             let (_key, offset) = result?;
 
-            // Our index doesn't have Kind embedded, so we have to check it
+            // Our index doesn't have Kind embedded, so we have to check it.
+            // It also pads or cuts the tag value to a fixed width, so we have to
+            // check the actual identifier too.
             let matches = {
                 let event = self.get_event_by_offset(offset)?;
                 event.kind() == addr.kind
+                    && event.tags()?.get_value(b"d") == Some(addr.d.as_slice())
             };
 
             if matches {
